@@ -205,6 +205,43 @@ def task_vector_points():
         out.append(ob("%s:vector-points[%s]" % (fn, ptag(pr, 0)), fn, FAILED if bad else PROVED, "B", "concrete", 0.0,
                       bad or "3-D control points: every coordinate is the L2 projection, the returned error is the worst coordinate's squared-residual integral",
                       dict(kind="c11.vector", pr=list(pr)) if bad else None))
+    # with interpolation nodes: the returned error is still (a fixed multiple of) the squared-residual integral of the WORST coordinate
+    for pr in ((2, (1, 0, 0), 1, (1, 0, 0)), (3, (0, 1, 0), 2, (0, 0, 0)), (2, (1, 1, 0), 2, (0, 0, 0)), "uneven"):
+        if pr == "uneven":      # unequal spans, coordinates whose residuals are strongly correlated
+            pr = (2, (1, 0, 0), 1, (1, 0, 0))
+            ps, cs, pt_, ct = pr
+            Us, Ut = (F(0), F(0), F(0), F(1, 3), F(1), F(1), F(1)), (F(0), F(0), F(1, 2), F(1), F(1))
+            P = [np.array(q, dtype=object) for q in ((F(1), F(0), F(1)), (F(-2), F(3), F(2)), (F(3), F(-1), F(-3)), (F(5), F(2), F(0)))]
+            tag = "src=(0,0,0,1/3,1,1,1),dst=(0,0,1/2,1,1)"
+        else:
+            ps, cs, pt_, ct = pr
+            Us, Ut = vec(ps, cs, 1), vec(pt_, ct, 1)
+            P = [np.array([F((-1) ** i * (i + 1), 2), F(i * i, 3) - i, F(3 - i)], dtype=object) for i in range(len(Us) - ps - 1)]
+            tag = ptag(pr, 1)
+        ns, nt = len(Us) - ps - 1, len(Ut) - pt_ - 1
+        nodes = (Us[0], Us[-1])
+        src, dst = curves.Curve(list(Us), P), curves.Curve(list(Ut))
+        bad = None
+        try:
+            err = dst.fit_curve(src, nodes)
+            Gtt, Gts, Gss = spec.gram(Ut, pt_, Ut, pt_), spec.gram(Ut, pt_, Us, ps), spec.gram(Us, ps, Us, ps)
+            worst = F(0)
+            for d in range(3):
+                Pd = [q[d] for q in P]
+                Qd = [q[d] for q in dst.ctrlpoints]
+                if Qd[0] != Pd[0] or Qd[-1] != Pd[-1]:
+                    bad = "coordinate %d does not interpolate at the end nodes" % d
+                    break
+                sq = sum(Pd[i] * Gss[i][j] * Pd[j] for i in range(ns) for j in range(ns)) - 2 * sum(Qd[i] * Gts[i][j] * Pd[j] for i in range(nt) for j in range(ns)) \
+                    + sum(Qd[i] * Gtt[i][j] * Qd[j] for i in range(nt) for j in range(nt))
+                worst = max(worst, sq)
+            if not bad and err not in (worst, worst / 2):
+                bad = "returned error %s; the integral of the squared residual is at most %s in a coordinate (expected that, or half of it)" % (err, worst)
+        except Exception as e:
+            bad = "%s: %s" % (type(e).__name__, str(e)[:100])
+        out.append(ob("%s:vector-points-with-nodes[%s]" % (fn, tag), fn, FAILED if bad else PROVED, "B", "concrete", 0.0,
+                      bad or "3-D control points, end nodes interpolated: the returned error is the worst coordinate's squared-residual integral",
+                      dict(kind="c11.vector-nodes", tag=tag) if bad else None))
     return out + [{"_stats": dict(cases=len(out))}]
 
 
@@ -222,6 +259,9 @@ def tasks(tier, seed):
 
 def replay(o):
     w = o["witness"]
+    if w.get("kind") == "c11.vector-nodes":
+        r = [x for x in task_vector_points() if "id" in x and x["id"].endswith("with-nodes[%s]" % w["tag"])][0]
+        return r["status"] == "failed", "end nodes interpolated; error == worst coordinate's squared-residual integral (or half of it)", r["detail"]
     if w.get("kind") == "c11.vector":
         pr = (w["pr"][0], tuple(w["pr"][1]), w["pr"][2], tuple(w["pr"][3]))
         r = [x for x in task_vector_points() if "id" in x and x["id"].endswith("[%s]" % ptag(pr, 0))][0]
